@@ -468,9 +468,15 @@ func runC14(o Opts) error {
 				if i%5 == 4 {
 					from = types.Date{} // profiles and tasks may carry the zero date
 				}
-				prof := types.TimeProfile{ID: 2 + genU8(r)%250, LinkedProfileID: []uint8{0, genU8(r)}[r.Intn(2)], From: from, To: dt, Weekdays: full, Segments: segs}
+				to := dt // single-day ranges, and ranges to the 28th of the month
+				if i%3 == 1 && d <= 28 {
+					if t28 := types.ToDate(y, time.Month(m), 28); time.Time(t28).Day() == 28 {
+						to = t28
+					}
+				}
+				prof := types.TimeProfile{ID: 2 + genU8(r)%250, LinkedProfileID: []uint8{0, genU8(r)}[r.Intn(2)], From: from, To: to, Weekdays: full, Segments: segs}
 				c14composite(s, "TimeProfile", prof, new(types.TimeProfile), z)
-				task := types.Task{Task: types.TaskType(r.Intn(13)), Door: []uint8{0, 1, 4, genU8(r)}[r.Intn(4)], From: from, To: dt, Weekdays: full, Start: types.NewHHmm(h1, m1), Cards: []uint8{0, genU8(r)}[r.Intn(2)]}
+				task := types.Task{Task: types.TaskType(r.Intn(13)), Door: []uint8{0, 1, 4, genU8(r)}[r.Intn(4)], From: from, To: to, Weekdays: full, Start: types.NewHHmm(h1, m1), Cards: []uint8{0, genU8(r)}[r.Intn(2)]}
 				c14composite(s, "Task", task, new(types.Task), z)
 				if tc := time.Time(card.To); tc.Day() == 28 && int(tc.Month()) == m { // dates that exist as days in this zone
 					c14round(s, "Card", card, cvCard(card), "", z, "round/card")
